@@ -184,12 +184,12 @@ func (m *SynchronizedMemory) Map(driver core1_0.DeviceDriver, references int, of
 }
 
 func (m *SynchronizedMemory) Unmap(driver core1_0.DeviceDriver, references int) error {
+	m.mapMutex.Lock()
+	defer m.mapMutex.Unlock()
+
 	if m.mapReferences == 0 {
 		return nil
 	}
-
-	m.mapMutex.Lock()
-	defer m.mapMutex.Unlock()
 
 	if m.mapReferences < references {
 		return errors.New("device memory block has more references being unmapped than are currently mapped")
